@@ -81,7 +81,13 @@ TECHNIQUE = ("Lean 4 proof over model with GEOS as a parameter under explicit co
              "from source; differential correspondence over all 81 type pairs, bit-exact against a binary64 evaluation of "
              "the model; property monitor on real outputs, also along histories of calls on reused objects and over call styles / "
              "construction paths resolved by the modelled argument binding")
-RULE = ("histories (affinity_history): 120 / 600 sequences of 3-5 calls in one process - a pair, neighbours of it (other buffers, "
+RULE = ("buffer scale (deterministic): time / frequency buffers 5e-7, 1e-6, 2e-6, 1e-7, 2^-20, 2^-28, 2e-9, 1e-3 (either axis alone, "
+        "both) and 1e3 / 1e4 / 1e5 s x Point, MultiPoint, LineStrings, MultiLineString, TimeStamp, the partner (interval, time "
+        "stamp) inside / straddling / outside / around the buffered extent within a few buffer widths (time-branch band monitor) "
+        "and a box, a point, the geometry itself at 64 buffers (area branch, contracts on the buffered shape); buffers at or above "
+        "2e-9 only and coordinate / buffer below 1e9 (known findings C11-zero-vs-tiny-buffer, C11-huge-buffer-ratio excluded); a "
+        "TimeStamp whose buffered ends are not binary64 numbers is compared bit for bit (affinity_bits).  "
+        "histories (affinity_history): 120 / 600 sequences of 3-5 calls in one process - a pair, neighbours of it (other buffers, "
         "the declared defaults passed and omitted, one or both geometries moved in time, the pair swapped, a geometry against "
         "itself), the pair again; half of the neighbour steps reuse the live geometry objects of the step before: coordinates "
         "re-assigned, model_copy(update=...) shallow / deep, copy.copy / deepcopy + assignment, the same objects with other "
@@ -1648,6 +1654,110 @@ def _option_product_cases(rng, thorough):
                         yield {"g1": g1, "g2": g2, "tb": tb, "fb": fb, "mode": "grid"}
 
 
+# ---------------------------------------------------------------- follow-up (wave 6): the scale of the buffers
+# microsecond-scale and smaller buffers (ultrasonic click timing), strictly positive and at or above 2e-9: the shapely
+# pipeline replaces a ZERO buffer by the factor 1e9 (an effective buffer of 1e-9), so a positive buffer below 1e-9 acts
+# smaller than a zero buffer (known finding C11-zero-vs-tiny-buffer) - not exercised; every case below keeps
+# coordinate / buffer below 1e9 (`_buffer_regime`), i.e. inside what the hypotheses of the band theorem cover.  1e-6,
+# 2^-20 and 1e-7 sit at / next to round thresholds an implementation could introduce (seeded C06-15: `<= 1e-6`)
+TINY_BUFFERS = (5e-7, 1e-6, 2e-6, 1e-7, 2.0 ** -20, 2.0 ** -28, 2e-9, 1e-3)
+HUGE_BUFFERS = (1e3, 1e4, 1e5)
+
+
+def _scale_geoms(T, F, u, v, d):
+    """the four GEOS-buffered types and the closed-form sibling at time T, frequency F; multi-geometries and lines
+    span `d` seconds (d = 2 tb for tiny buffers, tb / 1000 for huge ones: below C11's buffer / extent ratio of 1e4)"""
+    def p(t, f):
+        return [rat(float(t)), rat(float(f))]
+    return [
+        {"type": "Point", "coordinates": p(T, F)},
+        {"type": "MultiPoint", "coordinates": [p(T, F), p(T + d, F + 3 * v)]},
+        {"type": "LineString", "coordinates": [p(T, F), p(T + d, F)]},
+        {"type": "LineString", "coordinates": [p(T, F), p(T + d, F + 3 * v)]},
+        {"type": "MultiLineString", "coordinates": [[p(T, F), p(T + d / 2, F + v)], [p(T + d / 4, F + 2 * v), p(T + d, F + 2 * v)]]},
+        {"type": "TimeStamp", "coordinates": rat(float(T))},
+    ]
+
+
+def _scale_partners(g, u, v, F, kind):
+    """`time`: time-only partners inside / straddling / outside / around the buffered extent [s - tb, e + tb] of `g`
+    (within a few buffer widths `u`); `area`: area-branch partners of the size of the buffered shape, and `g` itself"""
+    s, e = (float(x) for x in _raw_time_bounds(g))
+
+    def iv(a, b):
+        a = max(a, 0.0)
+        return {"type": "TimeInterval", "coordinates": [rat(float(a)), rat(float(b))]}
+    if kind == "time":
+        return [iv(s - 0.9 * u, s - 0.2 * u), iv(s - 1.5 * u, s - 0.5 * u), iv(s - 3 * u, s - 2 * u), iv(e + 0.5 * u, e + 1.5 * u),
+                iv(e + 2 * u, e + 3 * u), iv(s - 4 * u, e + 4 * u),
+                {"type": "TimeStamp", "coordinates": rat(float(max(s - 1.5 * u, 0.0)))},
+                {"type": "TimeStamp", "coordinates": rat(float(e + 2.5 * u))}]
+    if g["type"] == "TimeStamp":
+        return []
+    return [{"type": "BoundingBox", "coordinates": [rat(float(max(s - 1.5 * u, 0.0))), rat(float(max(F - 1.5 * v, 0.0))),
+                                                     rat(float(s + 0.5 * u)), rat(float(F + 0.5 * v))]},
+            {"type": "Point", "coordinates": [rat(float(s + u / 2)), rat(float(F + v / 2))]},
+            g]
+
+
+def _stamp_rounds(c):
+    """a TimeStamp side whose buffered ends are not binary64 numbers (the implementation rounds them)"""
+    tb = frac(c["tb"])
+    for g in (c["g1"], c["g2"]):
+        if g["type"] == "TimeStamp":
+            t = frac(g["coordinates"])
+            if not (_is_float(t - tb) and _is_float(t + tb)):
+                return True
+    return False
+
+
+def _buffer_scale_cases(thorough):
+    """deterministic: buffers of 2e-9 ... 1e-3 (seconds and / or hertz) and of 1e3 ... 1e5 with geometries placed
+    within a few buffer widths of their partner - the time-branch band monitor (`extentWithin` / `bufferedTimeBand`,
+    ideal extent from the coordinates), the contracts on the buffered shape and the area branch all see a buffer that
+    is silently replaced, floored, capped or rounded at either end of the scale"""
+    T = 0.25
+    combos = []
+    for i, b in enumerate(TINY_BUFFERS):
+        combos.append((b, 10.0, T, 40000.0))                               # tiny time buffer, ordinary frequency buffer
+        combos.append((0.01, b, T, min(40000.0, b * 2.0 ** 26)))           # ordinary time buffer, tiny frequency buffer
+        if thorough or i % 3 == 0:
+            combos.append((b, b, T, b * 2.0 ** 26))                        # both tiny (frequency / buffer = 2^26 < 1e9)
+    seen = set()
+
+    def emit(g, h, tb, fb):
+        c = {"g1": g, "g2": h, "tb": rat(tb), "fb": rat(fb), "mode": "free"}
+        if jkey(c) not in seen and _wf(g) and _wf(h):
+            seen.add(jkey(c))
+            return [c]
+        return []
+    # time branch: at a quarter of a second (time / buffer up to 1.25e8: the ends of the buffered extent are binary64
+    # numbers 2^-54 apart, far below every buffer).  Area branch: GEOS overlays the buffered shapes in unscaled
+    # coordinates, so its noise relative to the shape is 2^-53 x coordinate / buffer; the contracts `Sound` and the
+    # comparison hold to 2^-40 only while that ratio is a few hundred (observed at ratio 5e5: I exceeds min(A1, A2) by
+    # 1e-11 relative) - the area cases sit at 64 buffers on both axes
+    for tb, fb, T0, F in combos:
+        for g in _scale_geoms(T0, F, tb, fb, 2 * tb):
+            for h in _scale_partners(g, tb, fb, F, "time"):
+                yield from emit(g, h, tb, fb)
+        for g in _scale_geoms(64 * tb, 64 * fb, tb, fb, 2 * tb):
+            for h in _scale_partners(g, tb, fb, 64 * fb, "area"):
+                yield from emit(g, h, tb, fb)
+    # buffers of a quarter of an hour to a day, far larger than the geometry (a point has no extent; lines and
+    # multi-geometries span tb / 1000, below C11's buffer / extent ratio of 1e4 - known finding C11-huge-buffer-ratio
+    # stays excluded by `_buffer_regime`): away from time 0 and clamped at it
+    for tb in HUGE_BUFFERS:
+        for fb in ((100.0,) if not thorough else (100.0, 1e4)):
+            for T0 in (3 * tb, tb / 2):
+                F = 64 * fb
+                for g in _scale_geoms(T0, F, tb, fb, tb / 1000):
+                    if g["type"] == "LineString" and not thorough and g["coordinates"][0][1] != g["coordinates"][1][1]:
+                        continue
+                    for kind in ("time", "area"):
+                        for h in _scale_partners(g, tb, fb, F, kind):
+                            yield from emit(g, h, tb, fb)
+
+
 def _call_cases(rng, reps):
     """every ordered type pair through the other ways of calling compute_affinity (positional, mixed, all keywords,
     omitted buffers) x ways of building the geometries x kinds of numbers for the buffers; pairwise: every style
@@ -1762,6 +1872,17 @@ def _boundaries(ctx):
                                         "holes, singleton multi-geometries) x time buffer x frequency buffer in {1/8, 2} (quick: 3 of the "
                                         "combinations per pair; thorough: {1/8, 1, 4}^2 and a zero buffer on either axis)")
     _run_pairs(ctx, list(_option_product_cases(ctx.rng, ctx.thorough())))
+    scale = list(_buffer_scale_cases(ctx.thorough()))
+    ctx.exhaustive["buffer scale"] = ("time / frequency buffers 5e-7, 1e-6, 2e-6, 1e-7, 2^-20, 2^-28, 2e-9, 1e-3 (each axis alone and both) and "
+                                      "1e3, 1e4, 1e5 s x Point, MultiPoint, 2 LineStrings, MultiLineString, TimeStamp x partners inside / "
+                                      "straddling / outside / around the buffered extent within a few buffer widths, a box, a point, itself")
+    for c in scale:
+        ctx.tally("buffer scale: " + ("tiny" if min(frac(c["tb"]), frac(c["fb"])) <= Fraction(1, 1000) else "huge") + " buffer cases")
+    # a TimeStamp whose buffered ends t - tb, t + tb are not binary64 numbers is rounded by any floating-point
+    # implementation: against an extent of a few microseconds that is 1e-11 of the ratio, above the tolerance of the
+    # exact model.  Such pairs are compared bit for bit with the binary64 evaluation of the model instead
+    _run_pairs(ctx, [c for c in scale if not _stamp_rounds(c)])
+    ctx.run_cases(OPS["affinity_bits"], [c for c in scale if _stamp_rounds(c)])
 
 
 def _calls(ctx):
@@ -1835,5 +1956,6 @@ def search(ctx, failures):
     ctx.stage("search: near-identical pairs", lambda: ctx.run_cases(
         OPS["affinity_range"], list(_near_identical_cases(ctx.rng, 150, GEOS_NEAR, NEAR_KINDS))))
     ctx.stage("search: boundaries at magnitudes", lambda: _run_pairs(ctx, list(_magnitude_boundary_cases())))
+    ctx.stage("search: buffer scale", lambda: _run_pairs(ctx, [c for c in _buffer_scale_cases(False) if not _stamp_rounds(c)]))
     ctx.stage("search: call styles", lambda: ctx.run_cases(OPS["affinity_call"], list(_call_cases(ctx.rng, 3))))
     ctx.stage("search: histories", lambda: ctx.run_cases(OPS["affinity_history"], _history_cases(ctx, 120)))
